@@ -90,6 +90,8 @@ class Coordinator(object):
         self._rejoin_needed = True
         # are we shutting down?
         self._stopping = False
+        # has a subclass begun work that ends in stop()?
+        self._stop_requested = False
         # delayedcall for a pending rejoin
         self._rejoin_wait_dc = None
         # deferred for a rejoin in progress
@@ -454,18 +456,24 @@ class Coordinator(object):
         d.addBoth(cleanup_rejoin_d).addErrback(rejoin_d_errback)
         return d
 
+    def _stop_pending(self):
+        # stop() has been called: the join sequence must not go any further
+        return self._stopping or self._stop_requested
+
     @inlineCallbacks
     def _join_and_sync(self):
         self._state = "[fetching_broker]"
         coordinator_broker = yield self.get_coordinator_broker()
-        if not coordinator_broker or self._stopping:
+        if not coordinator_broker or self._stop_pending():
             return
         self.coordinator_broker = coordinator_broker
 
         self._state = "[joining]"
         yield self.on_join_prepare()
+        if self._stop_pending():
+            return
         join_response = yield self.send_join_group_request()
-        if not join_response or self._stopping:
+        if not join_response or self._stop_pending():
             # join failed, we'll be called again after a small delay
             return
 
@@ -487,10 +495,12 @@ class Coordinator(object):
                     join_response.members,
                     topic_partitions=topic_partitions,
                 )
+            if self._stop_pending():
+                return
 
         self._state = "[syncing]"
         sync_response = yield self.send_sync_group_request(assignments)
-        if not sync_response or self._stopping:
+        if not sync_response or self._stop_pending():
             # sync failed, we'll be called again after a small delay
             return
 
